@@ -72,6 +72,19 @@ fn random_value(rng: &mut Rng, base: u64, spread: u64) -> Vec<(u64, u64)> {
     v
 }
 
+
+/// a canonical value with exactly `k` ranges (lengths 1..=4, gaps 2..=5) starting at `base`
+fn many_value(rng: &mut Rng, k: usize, base: u64) -> Vec<(u64, u64)> {
+    let mut v = Vec::with_capacity(k);
+    let mut s = base.max(2);
+    for _ in 0..k {
+        let e = s + rng.range(0, 3);
+        v.push((s, e));
+        s = e + *rng.pick(&[2, 2, 3, 4, 5]);
+    }
+    v
+}
+
 impl Prop for C18 {
     fn id(&self) -> &'static str {
         "C18"
@@ -81,7 +94,7 @@ impl Prop for C18 {
          in thorough, 64 seeded ones incl. empty/full/alternating in quick) x every candidate (s, e) over \
          0..12 incl. invalid ones; plus random values of 0..5 ranges with small gaps placed at 1, in the \
          middle of the u64 line and ending at u64::MAX, with candidates drawn next to every stored \
-         boundary (+-2), inside gaps, overlapping, spanning several ranges, above the head and invalid. \
+         boundary (+-2), inside gaps, stored values with MANY ranges (9..64; every size in thorough) probed at both ends, at indices 7..9/15..17/31..33 and random ones with candidates touching from below/above, bridging exactly, overlapping by one, at distance 2, overlapping, spanning several ranges, above the head and invalid. \
          Non-trivial = stored value non-empty and candidate valid; distinct = distinct (op, result)."
     }
     fn gen_ops(&mut self, rng: &mut Rng, tier: Tier, out: &mut Emitter) {
@@ -106,6 +119,55 @@ impl Prop for C18 {
                         continue;
                     }
                     out.op(format!("check rs={sv} s={s} e={e}"), if valid { "scope10/valid" } else { "scope10/invalid" }, valid && !v.is_empty());
+                }
+            }
+        }
+        // stored values with MANY ranges (size-dependent code paths: > 8, > 16, > 32 ranges):
+        // candidates touching / bridging / overlapping by one / at distance 2 around a sample of ranges
+        let sizes: Vec<usize> = if thorough { (9..=64).collect() } else { vec![9, 10, 16, 17, 24, 33, 64] };
+        for (n, &k) in sizes.iter().enumerate() {
+            let base = match n % 3 {
+                0 => 2,
+                1 => (1u64 << 40) + rng.range(0, 5),
+                _ => u64::MAX - 9 * k as u64 - 40,
+            };
+            let v = many_value(rng, k, base);
+            let sv = fmt_vec(&v);
+            let tag = if k > 32 { "many33+" } else if k > 16 { "many17-32" } else { "many9-16" };
+            let mut idx: Vec<usize> = vec![0, 1, k / 2, k - 2, k - 1];
+            for t in [7usize, 8, 9, 15, 16, 17, 31, 32, 33] {
+                if t < k {
+                    idx.push(t);
+                }
+            }
+            for _ in 0..(if thorough { 6 } else { 2 }) {
+                idx.push(rng.usize(0, k - 1));
+            }
+            idx.sort();
+            idx.dedup();
+            for i in idx {
+                let (s, e) = v[i];
+                let mut c = vec![(s - 1, s - 1), (e + 1, e + 1), (s - 1, s), (e, e + 1), (e + 2, e + 2), (s, e), (e + 1, e + 2)];
+                if s >= 3 {
+                    c.push((s - 2, s - 2));
+                    c.push((s - 2, s - 1));
+                }
+                if let Some(&(ns, _)) = v.get(i + 1) {
+                    c.push((e + 1, ns - 1));
+                    c.push((e + 1, ns));
+                    c.push((e, ns - 1));
+                    c.push((e + 2, ns - 1));
+                    c.push((e + 1, ns - 2));
+                    if let Some(&(_, nne)) = v.get(i + 2) {
+                        c.push((e + 1, nne + 1));
+                        c.push((s, nne));
+                    }
+                } else {
+                    c.push((e + 3, e + 9));
+                }
+                for (a, b) in c {
+                    let valid = a >= 1 && a <= b;
+                    out.op(format!("check rs={sv} s={a} e={b}"), &format!("{tag}/{}", if valid { "valid" } else { "invalid" }), valid);
                 }
             }
         }
